@@ -1,0 +1,49 @@
+//go:build verif
+// +build verif
+
+package model
+
+// Contracts for gocv (comment-only; compiled out unless the tag "verif" is set, and empty then).
+
+//@ spec mult(c Criterion) real = c.Type == Cost ? -1.0 : 1.0
+//@ spec signed(a AlternativeWithCriteria, c Criterion) real = a.Criteria[c.Id] * mult(c)
+
+//@ func (*Criterion).Multiplier
+//@   property C03 C11 C12 C13 C14 C19
+//@   nopanic
+//@   ensures [mult] real(result) == mult(*c)
+//@   ensures [pm1] result == 1 || result == -1
+
+//@ func (*AlternativeWithCriteria).CriterionRawValue
+//@   property C03 C11 C12 C13 C14 C16 C17 C20
+//@   panics_iff [missing] !(criterion.Id in a.Criteria)
+//@   ensures [raw] result == a.Criteria[criterion.Id]
+
+//@ func (*AlternativeWithCriteria).CriterionValue
+//@   property C03 C11 C12 C13
+//@   panics_iff [missing] !(criterion.Id in a.Criteria)
+//@   ensures [signed] result == signed(*a, *criterion)
+
+//@ func CriteriaValuesRange
+//@   property C14 C16 C17 C13
+//@   ensures [declared_first] criterion.ValuesRange != nil ==> result == criterion.ValuesRange
+//@   ensures [observed_bounds] criterion.ValuesRange == nil ==> fresh(result) && (forall k int :: 0 <= k && k < len(*alternatives) ==>
+//@              result.Min <= (*alternatives)[k].Criteria[criterion.Id] && (*alternatives)[k].Criteria[criterion.Id] <= result.Max)
+//@   ensures [observed_attained] criterion.ValuesRange == nil && len(*alternatives) > 0 ==>
+//@              (exists k int :: 0 <= k && k < len(*alternatives) && result.Min == (*alternatives)[k].Criteria[criterion.Id])
+//@           && (exists k int :: 0 <= k && k < len(*alternatives) && result.Max == (*alternatives)[k].Criteria[criterion.Id])
+//@   ensures [observed_empty] criterion.ValuesRange == nil && len(*alternatives) == 0 ==> result.Min == 0.0 && result.Max == 0.0
+//@   loop 1 invariant [zero] iter == 0 ==> valRange.Min == 0.0 && valRange.Max == 0.0
+//@   loop 1 invariant [bounds] forall k int :: 0 <= k && k < iter ==>
+//@              valRange.Min <= (*alternatives)[k].Criteria[criterion.Id] && (*alternatives)[k].Criteria[criterion.Id] <= valRange.Max
+//@   loop 1 invariant [attained] iter > 0 ==>
+//@              (exists k int :: 0 <= k && k < iter && valRange.Min == (*alternatives)[k].Criteria[criterion.Id])
+//@           && (exists k int :: 0 <= k && k < iter && valRange.Max == (*alternatives)[k].Criteria[criterion.Id])
+
+//@ spec altAt(a []AlternativeWithCriteria, b []AlternativeWithCriteria, k int) AlternativeWithCriteria = k < len(a) ? a[k] : b[k - len(a)]
+
+//@ func (*DecisionMakingParams).AllAlternatives
+//@   property C09 C14 C16 C17
+//@   ensures [len] len(result) == len(p.ConsideredAlternatives) + len(p.NotConsideredAlternatives)
+//@   ensures [concat] forall k int :: 0 <= k && k < len(result) ==> result[k] == altAt(p.ConsideredAlternatives, p.NotConsideredAlternatives, k)
+//@   ensures [C09 fresh] fresh(result)
